@@ -193,6 +193,7 @@ type Outcome struct {
 type Exec struct {
 	prog     *Program
 	unit     *Unit
+	factSrc  map[*Term]string // provenance of labelled assumptions (for "by" hints)
 	obls     []*Obligation
 	fresh    int
 	objs     int
@@ -1628,13 +1629,81 @@ func siteLabel(desc string) string {
 	return strings.ReplaceAll(desc, " ", "_")
 }
 
+// tagFrom labels the facts added to st.pc since position n0 with their source (requires / invariant / callee ensures...).
+func (x *Exec) tagFrom(st *State, n0 int, src string) {
+	if x.factSrc == nil {
+		x.factSrc = map[*Term]string{}
+	}
+	for i := n0; i < len(st.pc); i++ {
+		if _, ok := x.factSrc[st.pc[i]]; !ok {
+			x.factSrc[st.pc[i]] = src
+		}
+	}
+}
+
+func hasQuant(t *Term, memo map[*Term]bool) bool {
+	if v, ok := memo[t]; ok {
+		return v
+	}
+	r := t.kind == tQuant
+	if !r {
+		for _, a := range t.Args {
+			if hasQuant(a, memo) {
+				r = true
+				break
+			}
+		}
+	}
+	memo[t] = r
+	return r
+}
+
+// hintFilter: a "by <label>: src, ..." clause restricts the *quantified* labelled assumptions used for that obligation
+// to the listed sources (prefix match). Dropping assumptions is sound; unlabelled facts are always kept.
+func (x *Exec) hintFilter(kind, label string, pc []*Term) []*Term {
+	if x.unit == nil || x.unit.Contract == nil {
+		return pc
+	}
+	var srcs []string
+	found := false
+	for _, h := range x.unit.Contract.Hints {
+		if h.Label == label || h.Label == kind+":"+label {
+			srcs = append(srcs, h.From...)
+			found = true
+		}
+	}
+	if !found {
+		return pc
+	}
+	memo := map[*Term]bool{}
+	var out []*Term
+	for _, t := range pc {
+		src, ok := x.factSrc[t]
+		if !ok || !hasQuant(t, memo) {
+			out = append(out, t)
+			continue
+		}
+		keep := false
+		for _, s := range srcs {
+			if src == s || strings.HasPrefix(src, s+":") || strings.HasPrefix(src, s+".") {
+				keep = true
+				break
+			}
+		}
+		if keep {
+			out = append(out, t)
+		}
+	}
+	return out
+}
+
 func (x *Exec) oblige(st *State, kind, label, site string, goal *Term, src string) {
 	if goal.IsTrue() {
 		// trivially discharged; still counted
 		x.obls = append(x.obls, &Obligation{Unit: x.unit.Name, Kind: kind, Label: label, Site: site, Goal: True, Src: src, Inputs: x.inputs})
 		return
 	}
-	o := &Obligation{Unit: x.unit.Name, Kind: kind, Label: label, Site: site, Assumes: append([]*Term(nil), st.pc...), Goal: goal, Src: src, Inputs: x.inputs}
+	o := &Obligation{Unit: x.unit.Name, Kind: kind, Label: label, Site: site, Assumes: append([]*Term(nil), x.hintFilter(kind, label, st.pc)...), Goal: goal, Src: src, Inputs: x.inputs}
 	x.obls = append(x.obls, o)
 }
 
